@@ -129,20 +129,35 @@ fn value_eq(a: &Value, b: &Value) -> bool {
 /// as implemented at the pinned commit): only an exact match of the library's result with the
 /// model's result is a recorded finding; the finding ids name the lenient rules that fired.
 fn rejudge(class: &str, v: &V, pp: &Parsed, got: &Result<Value, String>) -> Option<Vec<&'static str>> {
-    if !matches!(class, "different-value" | "lib-ok-spec-none" | "lib-err-spec-value") {
+    if !matches!(class, "different-value" | "lib-ok-spec-none" | "lib-err-spec-value" | "not-idempotent") {
         return None;
     }
     if matches!(got, Err(e) if e.starts_with("panic")) {
         return None;
     }
     let mut notes = crate::libmodel::Notes::new();
-    let model = crate::libmodel::resolve(to_lib(v, &pp.ws, &pp.wenv), &pp.rs, &pp.renv, &mut notes);
-    let same = match (&model, got) {
-        (Err(()), Err(_)) => true,
-        (Ok(m), Ok(l)) => value_eq(m, l),
-        _ => false,
-    };
-    notes.0.retain(|n| *n != crate::libmodel::NON_UTF8 && *n != crate::libmodel::NOT_A_UUID);
+    let (model, same);
+    if class == "not-idempotent" {
+        // the first resolution was right; the second starts from the resolved VALUE alone (that is how the
+        // clause is stated) and the value-based rules may pick another branch for it
+        let Ok(lv) = got else { return None };
+        let again = guarded(|| lv.clone().resolve(&pp.rl));
+        model = crate::libmodel::resolve(lv.clone(), &pp.rs, &pp.renv, &mut notes);
+        same = match (&model, &again) {
+            (Ok(m), Ok(Ok(l))) => value_eq(m, l),
+            (Err(()), Ok(Err(_))) => true,
+            _ => false,
+        };
+    } else {
+        model = crate::libmodel::resolve(to_lib(v, &pp.ws, &pp.wenv), &pp.rs, &pp.renv, &mut notes);
+        same = match (&model, got) {
+            (Err(()), Err(_)) => true,
+            (Ok(m), Ok(l)) => value_eq(m, l),
+            _ => false,
+        };
+    }
+    let _ = &model;
+    notes.0.retain(|n| *n != crate::libmodel::NON_UTF8 && *n != crate::libmodel::NOT_A_UUID && *n != crate::libmodel::NOT_A_BIG_DECIMAL);
     if !same || notes.0.is_empty() {
         return None;
     }
@@ -159,6 +174,11 @@ fn rejudge(class: &str, v: &V, pp: &Parsed, got: &Result<Value, String>) -> Opti
                 "string-to-fixed-without-size-check" => "D-C08-string-to-fixed-without-size-check",
                 "fixed-accepted-by-string-reader" => "D-C08-fixed-accepted-by-string-reader",
                 "logical-type-value-not-accepted-by-reader-of-the-underlying-type" => "D-C08-logical-type-value-rejected-by-reader-of-the-underlying-type",
+                "array-of-small-ints-accepted-by-bytes-reader" => "D-C08-array-of-small-ints-accepted-by-bytes-reader",
+                "bytes-of-the-right-length-accepted-by-fixed-reader" => "D-C08-bytes-of-the-right-length-accepted-by-fixed-reader",
+                "decimal-on-fixed-size-not-compared" => "D-C08-decimal-on-fixed-sizes-not-compared",
+                "string-read-as-decimal-by-code-points" => "D-C08-written-string-read-as-decimal-by-code-points",
+                "fixed-or-bytes-accepted-by-decimal-reader-whatever-its-underlying-type" => "D-C08-fixed-or-bytes-accepted-by-decimal-reader-of-the-other-underlying-type",
                 _ => "D-C08-reader-union-branch-chosen-from-the-value",
             })
             .collect(),
@@ -218,6 +238,11 @@ pub fn run_c08(tier: Tier, replay: Option<&J>) -> i32 {
                 st.transitions += 2;
                 let bytes = refbin::encode(v, &pp.ws, &pp.wenv);
                 let expect = refresolve::resolve(&pp.ws, &pp.rs, v, &cx);
+                if matches!(&expect, Err(refresolve::NoResult(m)) if m.contains("OUTSIDE-MODEL")) {
+                    // the reference model has no opinion (not "no result"): no verdict for this case
+                    st.outcome("outside-the-reference-model(no verdict)");
+                    continue;
+                }
                 let got = lib_read(&pp.wl, &pp.rl, &bytes);
                 // second path: Value::resolve on the generic value
                 let got2 = match guarded(|| to_lib(v, &pp.ws, &pp.wenv).resolve(&pp.rl)) {
@@ -327,6 +352,7 @@ fn c09_judge(v: &V, ws: &S, wenv: &Env, rs: &S, renv: &Env) -> Option<Vec<&'stat
             .map(|n| match *n {
                 crate::libmodel::NON_UTF8 => "D-C09-bytes-to-string-is-full-but-bytes-that-are-not-utf8-cannot-be-read",
                 crate::libmodel::NOT_A_UUID => "D-C09-plain-string-or-bytes-to-uuid-is-full-but-only-uuid-shaped-values-can-be-read",
+                crate::libmodel::NOT_A_BIG_DECIMAL => "D-C09-plain-bytes-to-big-decimal-is-full-but-only-big-decimal-payloads-can-be-read",
                 "reader-field-aliases-not-used" => "D-C09-full-verdict-relies-on-reader-field-aliases-that-reading-ignores",
                 "logical-type-value-not-accepted-by-reader-of-the-underlying-type" => "D-C09-full-across-logical-types-but-the-read-rejects-the-value",
                 "defaults-converted-from-json-by-value" => "D-C09-full-but-the-reader-default-cannot-be-converted",
